@@ -256,6 +256,8 @@ fn main() {
         }
     }
     jobs.extend(impl_header_texts());
+    // every argument-list shape for every callee kind (quick: arity <= 2, four argument forms; thorough: arity <= 3, five)
+    jobs.extend(if quick { call_shape_texts(2, false) } else { call_shape_texts(3, true) });
     jobs.extend(default_binding_texts());
     jobs.extend(default_context_texts());
     jobs.extend(namespace_texts());
@@ -300,7 +302,7 @@ fn main() {
     let mut seen: BTreeMap<String, u64> = BTreeMap::new();
     let mut disagree = 0;
     for ((label, text), r) in jobs.iter().zip(results) {
-        let kind = label.split(':').take(if label.starts_with("mut") || label.starts_with("deep") || label.starts_with("long") || label.starts_with("import") || label.starts_with("inftype") || label.starts_with("arity") || label.starts_with("illdecl") || label.starts_with("diverge") || label.starts_with("litedge") || label.starts_with("defbind") || label.starts_with("edit") || label.starts_with("implhdr") || label.starts_with("defctx") || label.starts_with("nsuse") || label.starts_with("assign") { 2 } else { 1 }).collect::<Vec<_>>().join(":");
+        let kind = label.split(':').take(if label.starts_with("mut") || label.starts_with("deep") || label.starts_with("long") || label.starts_with("import") || label.starts_with("inftype") || label.starts_with("arity") || label.starts_with("illdecl") || label.starts_with("diverge") || label.starts_with("litedge") || label.starts_with("defbind") || label.starts_with("edit") || label.starts_with("implhdr") || label.starts_with("callshape") || label.starts_with("defctx") || label.starts_with("nsuse") || label.starts_with("assign") { 2 } else { 1 }).collect::<Vec<_>>().join(":");
         let kind = kind.trim_end_matches(|c: char| c.is_ascii_digit()).to_string();
         ctx.count(&format!("text:{kind}"));
         if !text.is_ascii() {
